@@ -13,7 +13,7 @@ LEVEL = "exploration"
 KS = [1, 2, 10, 255, 256, 65535, 65536, 70000]
 RULE = ("case = (generated program with one planted fault from the ill-typed catalogue at a drawn site; insertion line p; k in "
         "{1,2,10,255,256,65535,65536,70000} lines without code (blank or comment) inserted before line p; placement in {same file, the faulty "
-        "function moved into an #include'd file, a '#line n \"f\"' directive before it}; the offending line padded so that the offending token "
+        "function moved into an #include'd file, a '#line n \"f\"' directive before it (f new, f already in effect through an earlier #line, f the file itself, or no f)}; the offending line padded so that the offending token "
         "starts at column c in {as is, 100, 1000, 16000}). Oracle: (a) shift law - every reported line number at or after p grows by exactly k, "
         "every other line number, every column, every message text and the number of messages are unchanged; (b) absolute - for the undefined-name "
         "and wrong-argument faults the reported line and column are those of the planted token; (c) the message names the included / renamed "
@@ -111,18 +111,29 @@ def check(tc, pr, kind, site, p_frac, k, placement, col, ev, h):
         ok = [d for d in d2 if d[0] and d[0].endswith("inc%s.as" % h[:4]) and d[1] == 3]
         if errs0 and any(d[1] == ti + 1 for d in errs0) and not ok:
             return Fail({"kind": "include-position", "fault": kind, "what": "offending line moved into an included file (its line 3): reported as %s" % [(d[0], d[1], d[2]) for d in d2][:3]},
-                        dict(case, files=files)), True
+                        dict(case, files=files, expect_file="inc%s.as" % h[:4], expect_fline=3)), True
         nt = True
-    elif placement == "line":
+    elif placement in ("line", "line2", "lineself", "linebare"):
         newno = [7, 1000, 65000, 70001][k % 4]
-        lsrc = src[:ti] + ['#line %d "renamed.as"' % newno] + src[ti:]
-        files = {"p.as": "\n".join(lsrc) + "\n", "renamed.as": "\n" * (newno + 3)}
+        # line: first switch to another name; line2: second directive naming the name already in effect (what a literate-programming
+        # tool emits); lineself: the directive names the file it is in; linebare: no name, the current file keeps its name
+        fname = {"line": "renamed.as", "line2": "renamed.as", "lineself": "p.as", "linebare": "p.as"}[placement]
+        directive = '#line %d' % newno if placement == "linebare" else '#line %d "%s"' % (newno, fname)
+        lsrc = src[:ti] + [directive] + src[ti:]
+        if placement == "line2":
+            if ti <= 4:
+                return None, nt
+            lsrc = lsrc[:3] + ['#line 31 "renamed.as"'] + lsrc[3:]
+        # the named file has at least `newno` lines (blank padding), so that the message can show the line it names
+        pad = "\n" * (newno + 3) if fname == "p.as" else ""
+        files = {"p.as": "\n".join(lsrc) + "\n" + pad, "renamed.as": "\n" * (newno + 3)}
         r3 = compile_text(tc, files, h + "3")
         d3 = [d for d in diagnostics(r3.text()) if d[3] in ("Error", "Fatal Error")]
-        ok = [d for d in d3 if d[0] and d[0].endswith("renamed.as") and d[1] == newno]
+        ok = [d for d in d3 if d[0] and d[0].endswith(fname) and d[1] == newno]
         if errs0 and any(d[1] == ti + 1 for d in errs0) and not ok:
-            return Fail({"kind": "line-directive-position", "fault": kind, "what": "#line %d \"renamed.as\" before the offending line: reported as %s" % (newno, [(d[0], d[1], d[2]) for d in d3][:3])},
-                        dict(case, files=files)), True
+            return Fail({"kind": "line-directive-position", "fault": kind, "variant": placement, "what": "%s before the offending line%s: reported as %s" % (
+                directive, " (after an earlier #line 31 \"renamed.as\")" if placement == "line2" else "", [(d[0], d[1], d[2]) for d in d3][:3])},
+                        dict(case, files=files, expect_file=fname, expect_fline=newno)), True
         nt = True
     return None, nt
 
@@ -132,7 +143,7 @@ def _worker(args):
     ev = Ev()
     cols = [0, 0, 100, 1000, 16000] + ([] if K3_KNOWN else [16384, 20000])
     strat = st.tuples(P.programs(P.Profile(size=8, abnormal=False)), st.sampled_from(["M1", "M2a", "M2b", "M3", "M5"]), st.integers(0, 10 ** 6), st.floats(0.05, 0.95),
-                      st.sampled_from(KS), st.sampled_from(["same", "same", "include", "line"]), st.sampled_from(cols))
+                      st.sampled_from(KS), st.sampled_from(["same", "same", "include", "line", "line2", "lineself", "linebare"]), st.sampled_from(cols))
 
     def evaluate(case, ev):
         pr, kind, sidx, pf, k, placement, col = case
@@ -163,6 +174,11 @@ def replay(ctx, case):
     if "expect_line" in case:
         if not [x for x in d if x[1] == case["expect_line"] and x[2] == case["expect_col"]]:
             return Fail({"kind": "absolute-position", "fault": case.get("kind", "?"), "column": "wide" if case["expect_col"] >= 16384 else "narrow", "what": "planted token at line %d column %d reported at %s" % (case["expect_line"], case["expect_col"], [(x[1], x[2]) for x in d][:3])}, case)
+        return None
+    if "expect_file" in case:
+        if not [x for x in d if x[0] and x[0].endswith(case["expect_file"]) and x[1] == case["expect_fline"]]:
+            return Fail({"kind": "line-directive-position" if "#line" in case["files"]["p.as"] else "include-position", "fault": case.get("kind", "?"),
+                         "what": "expected a diagnostic at %s line %d, reported: %s" % (case["expect_file"], case["expect_fline"], [(x[0], x[1], x[2]) for x in d][:3])}, case)
         return None
     if "base" in case:
         r0 = compile_text(ctx.tc, case["base"], "replay0")
